@@ -38,7 +38,8 @@ def rule_hold(ctx, tab, rule="R2"):
         if uses_rem:
             rem0 = [v for (t, v, s) in r.path.conds if t[0] == "bin" and t[1] == "Eq" and t[2] == ("bin", "Rem", S, D, "f32")]
             ge1 = [v for (t, v, s) in r.path.conds if t == pse.mk_bin("Le", one, quot)]
-            ok = rem0 == [0] or (rem0 == [1] and ge1 == [0])
+            # decided on the path: not (exact multiple and a completed cycle), in either order of the two tests
+            ok = rem0 == [0] or ge1 == [0]
             ctx.ob(rule, "wrap-guarded/" + r.label, ok,
                    "the position may wrap to the remainder only when the time is not an exact cycle multiple (or the "
                    "first cycle has not completed): otherwise 100%% is never shown", tab["body"]["span"],
